@@ -99,6 +99,17 @@ func genCase(t *rapid.T) Case {
 			}
 		}
 	}
+	// one case in four: the keys are the empty string and NULL (no key column) instead of k1 and k2
+	if rapid.IntRange(0, 3).Draw(t, "nullkeys") == 0 {
+		for i := range evs {
+			switch evs[i].G {
+			case "k1":
+				evs[i].G = ""
+			case "k2":
+				evs[i].G = nullKey
+			}
+		}
+	}
 	// renumber ids in arrival order for readability
 	for i := range evs {
 		evs[i].ID = i
@@ -130,8 +141,14 @@ func sqlOf(c Case) string {
 		sel, key, c.TimeoutMs, et.With("ms", c.OOOMs, 0))
 }
 
+// nullKey stands for the NULL group in the model (the engine row then has no key column); "" is the empty-string group.
+const nullKey = "~null~"
+
 // engineRow moves the key column under the map column dev when the case says so.
 func engineRow(c Case, m map[string]any) map[string]any {
+	if m["g"] == nullKey {
+		delete(m, "g") // the NULL group: the row has no key column
+	}
 	if !c.Nested {
 		return m
 	}
@@ -192,7 +209,10 @@ func feed(c Case, pauses []int, res *pbt.Result) ([]sess, []run.Delivery, bool) 
 				res.Add(pbt.D("bad-row", "row without ws/we/ids: %v", r))
 				continue
 			}
-			g, _ := r["g"].(string)
+			g, isStr := r["g"].(string)
+			if !isStr && r["g"] == nil {
+				g = nullKey
+			}
 			if cnt, _ := gen.ToFloat(r["c"]); int(cnt) != len(ids) {
 				res.Add(pbt.D("wrong-count", "count(*)=%v but %d ids", r["c"], len(ids)))
 			}
@@ -365,7 +385,7 @@ func features(c Case) []string {
 
 var spec = pbt.Spec[Case]{
 	ID:          "C10",
-	Rule:        "generated: event-time session windows (timeout 0.5-5 s, 1-3 keys in a plain column or, one case in five, nested under a map column (GROUP BY dev.g), per-key gaps from {0,1ms,T/4,T/2,T-1,T,T+1,3T}, OOO 0 / 1 s / T/2 / 2T / 3T with within-tolerance swaps of neighbours or arbitrary within-tolerance displacements (arrival order = order of ts + jitter), burst/paced/mixed feeding, flush row from another key; 5% long bursts of 120-500 strictly increasing rows, most closing a session, then silence). oracle: reference sessionizer invariants - every accepted event in exactly one session of its key, consecutive gaps inside a session <= timeout, accepted neighbours closer than the timeout share a session, window_start = earliest ts, window_end = latest + timeout, no early firing, burst == paced for in-order input. non-trivial = a key with a gap above the timeout or a reordered accepted row; distinct by case hash",
+	Rule:        "generated: event-time session windows (timeout 0.5-5 s, 1-3 keys (k1..k3 or, one case in four, the empty string and NULL in place of k1 and k2) in a plain column or, one case in five, nested under a map column (GROUP BY dev.g), per-key gaps from {0,1ms,T/4,T/2,T-1,T,T+1,3T}, OOO 0 / 1 s / T/2 / 2T / 3T with within-tolerance swaps of neighbours or arbitrary within-tolerance displacements (arrival order = order of ts + jitter), burst/paced/mixed feeding, flush row from another key; 5% long bursts of 120-500 strictly increasing rows, most closing a session, then silence). oracle: reference sessionizer invariants - every accepted event in exactly one session of its key, consecutive gaps inside a session <= timeout, accepted neighbours closer than the timeout share a session, window_start = earliest ts, window_end = latest + timeout, no early firing, burst == paced for in-order input. non-trivial = a key with a gap above the timeout or a reordered accepted row; distinct by case hash",
 	Assumptions: []string{"input never dropped (block strategy)", "gap == timeout may or may not split", "late-on-arrival rows may be reported or not"},
 	Gen:         genCase,
 	Run:         runCase,
